@@ -1,0 +1,21 @@
+//go:build verif
+
+package gateway
+
+// Exported views of unexported functions, compiled only with `-tags verif`.
+// They add no behaviour: each wrapper calls the function it names and returns
+// what that function returned.
+
+import (
+	"github.com/nautilus/graphql"
+)
+
+// VerifInjectFile calls injectFile.
+func VerifInjectFile(operations []*HTTPOperation, file graphql.Upload, paths []string, batchMode bool) error {
+	return injectFile(operations, file, paths, batchMode)
+}
+
+// VerifParseOperations calls parseOperations.
+func VerifParseOperations(operationsJSON []byte) ([]*HTTPOperation, bool, error) {
+	return parseOperations(operationsJSON)
+}
